@@ -92,11 +92,38 @@ CHECKS = {
             "json.dumps/loads are a trusted oracle; CLI glue (argparse, I/O) is tied by execution only - partial for that part.", "4 C20"),
 }
 
+SHIPPED = (" The same statements are also proved AT THE SHIPPED SCANNER (Proofs/DefaultEngine.v): for the model of Multidecoder().scan with the regenerated registry of all 30 decoders and the keyword searchers "
+           "(find_powershell_strings replaced by any conforming decoder where in-bounds hits are needed - known finding F6 is why it does not conform itself -, or the shell module excluded; C07 / C08 / order / chain need no such hypothesis and are about scan_default itself). "
+           "The engine correspondence also runs on registry tables RECORDED from scans with the shipped decoders.")
+RT = " END-TO-END round trips WITH span selection by the model's matcher on the regenerated patterns (Proofs/RoundTrip*.v): for every payload / instance of the stated class, every neutral prefix and any admissible suffix, the form is reported as ONE node with exactly its span and the stated value"
+ADD = {
+    "C01": " The assembly for the whole shipped registry is proved: scan_default_never_raises (every input, depth limit, keyword directory, tool oracle with non-negative pe_size: a tree or matcher-fuel exhaustion, never an exception); every registered @decoder name has a model (registered_names_modelled_b).",
+    "C02": RT + ": atob / Base64Decode / FromBase64String / FromHexString / unescape / UTF-16LE / decimal XML references / reverse / StrReverse / three replace dialects / n-ary concatenation / bare hex (both cases) / bare base64 (also line-wrapped) / the caret layer; the engine chain law also at scan_default itself.",
+    "C03": " REGISTRY PART (Proofs/DefaultWf.v): 29 of the 30 shipped decoders and every keyword searcher report only in-bounds, non-inverted spans on every input, so whole scans with find_powershell_strings replaced by any conforming decoder (or shell excluded) are in bounds at every level; find_powershell_strings is proved NOT to conform (F6 witness (68,35)): the carve-out is exact.",
+    "C04": SHIPPED, "C05": SHIPPED + " Every child list of shipped-registry scans (decoder-supplied sub-structure included) is checked for laminarity on the implementation side.", "C06": SHIPPED,
+    "C07": SHIPPED + " The first clause is also checked on the shipped registry by recording every call of a decoder function (through the registry and through the module globals).", "C08": SHIPPED + " Implementation side: every decoded node of shipped-registry scans is re-scanned on its own by the unwrapped scanner.",
+    "C10": RT + ": URLs without escapes / dot segments and domains under the regenerated TLD table are reported verbatim and unlabelled.",
+    "C11": " Matcher OFFSET INDEPENDENCE (Regex/LocalityProofs.v: what is matched from a position on depends only on the following text and the last lb_width bytes before it, and shifts with the offset; lb_width of the indicator patterns computed by name)." + RT + ": IPv4 addresses, domains, e-mail addresses, .exe / .dll names, POSIX paths, CreateObject calls, simple URLs with query / fragment, drive paths.",
+    "C12": RT + ": for the simple URL class the reported node has exactly the scheme / domain / path / query / fragment children at the positions of those components; drive paths with their file-name child.",
+    "C13": " CONVERSE proved end to end" + RT[len(" END-TO-END round trips"):] + ": the four call forms, bare lower / upper hex (the F11 hypothesis made exact and shown necessary) and bare base64 incl. LF / CR LF wrapping.",
+    "C14": RT + ": unescape, UTF-16LE, decimal XML references.",
+    "C15": RT + ": reverse / StrReverse, the three replace dialects (py_replace_inverse: the token trick is undone), n-ary concatenation chains.",
+    "C16": RT + ": the cmd result (find_cmd_strings_roundtrip) and the caret layer.",
+}
+NOTE_FIX = {
+    "C02": "PARTIAL: span selection is PROVED for 17 layer forms (RoundTrip*.v) and validated by the stacks for chr / byte arrays / hex XML references; dominance over the other shipped decoders' hits is validated, not proved.",
+    "C03": "In-bounds-ness of the hits the SHIPPED decoders report is proved (DefaultWf.v) for all but find_powershell_strings, which is the known finding F6 (also F19 for its pre-built child): excluded by their matchers, reported as KNOWN-FINDING.",
+    "C11": "PARTIAL: instance selection is proved for the classes listed; for URLs with userinfo / port / escapes / IP hosts, UNC and device paths and PE files it is exercised by the probes. pefile is an oracle (section table).",
+    "C13": "The converse is proved for all forms except character-reference line separators inside wrapped base64 (exercised); known finding F11 (upper-case hex with >= 10 leading digit pairs) is stated exactly as a theorem hypothesis and reported as KNOWN-FINDING.",
+}
+
 TECH = "machine-checked proof in Coq (model + theorems) tied to the code by a regenerating translator and a model/implementation correspondence check"
 
 
 def chk(pid):
     text, note, ref = CHECKS[pid]
+    text = text + ADD.get(pid, "")
+    note = NOTE_FIX.get(pid, note)
     return {"property_id": pid, "quick_cmd": f"./check {pid} --tier quick", "thorough_cmd": f"./check {pid} --tier thorough",
             "evidence_file": f"/verif/evidence/{pid}.json", "replay_cmd_template": f"./check {pid} --replay {{path}}",
             "engine": "coq-model+correspondence", "level_claimed": {"category": "proof", "text": text, "design_ref": "DESIGN.md section " + ref},
@@ -116,7 +143,7 @@ m = {
     "checks": [chk(p["id"]) for p in props if p["id"] in CHECKS],
     "not_applicable": [{"property_id": p["id"], "reason": "check still being built in this session (model exists or is in progress; will be claimed)"}
                        for p in props if p["id"] not in CHECKS],
-    "notes": "See DESIGN.md. known_findings.json lists open findings (F6, F11) and the 13 'fix:' commits made in /repo.",
+    "notes": "See DESIGN.md (section 11 = as built). known_findings.json lists the open findings (F6, F19, F11) and the 20 'fix:' commits made in /repo (F1-F5, F7-F10, F12-F16, F18, F20-F25); seeded/ holds 100 confirmed seeded changes, all caught.",
 }
 json.dump(m, open(os.path.join(VERIF, "MANIFEST.json"), "w"), indent=1)
 print("checks:", [c["property_id"] for c in m["checks"]])
